@@ -12,7 +12,7 @@ from .. import core, phymon
 
 ID = "C14"
 THEOREMS = ["C14_wrong_mode_refused_without_commanding", "C14_sx126x_every_history", "C14_sx126x_failed_operation", "C14_sx127x_every_history",
-            "C14_sx127x_failed_operation", "C14_adapter_sx126x", "C14_adapter_sx127x", "C14_initial_state", "C14_sx126x_history_example", "C14_sx127x_lora_mode_refuted"]
+            "C14_sx127x_failed_operation", "C14_adapter_sx126x", "C14_adapter_sx127x", "C14_initial_state", "C14_sx126x_history_example", "C14_sx127x_failed_reset_history"]
 
 F = [868100000, 433050000, 915000000]
 CHIPS = [("sx1262", "2", 1), ("sx1261", "-", 0), ("stm32wl_hp", "-", 1), ("sx1276", "-", 0), ("sx1272", "2", 0)]
@@ -130,7 +130,6 @@ def judge(case, out, want_monline=False):
     monops.append("new : " + tr0)
     monstates.append(mon_state(mon))
     prev_mode = "standby"
-    fsk_after_failed_init = False
     for idx, (op, o) in enumerate(zip(ops, parts[1:])):
         name = bare(op)[0]
         if o.startswith("PANIC"):
@@ -154,8 +153,6 @@ def judge(case, out, want_monline=False):
         monops.append("%s : %s" % (name, trace))
         monstates.append(mon_state(mon))
         where = {"op_index": idx, "op": op, "result": res[:80], "driver_mode": dmode, "driver_cold_start": cold, "chip_mode": mon.mode}
-        if name == "init" and res.startswith("Err") and "RESET" in trace and fam(chip) == 127 and "lora_mode" not in mon.valid:
-            fsk_after_failed_init = True
         if v is None and len(mon.viol) > nviol:
             v = dict(where, kind=mon.viol[nviol])
         # (a) an operation invoked in the wrong mode is refused without commanding the chip
@@ -189,11 +186,6 @@ def judge(case, out, want_monline=False):
             elif not cold and [i for i in mon.need("base") if i not in mon.valid]:
                 v = dict(where, kind="the chip has lost its configuration but the driver's cold_start flag is clear")
         prev_mode = dmode
-        if v is not None and fsk_after_failed_init and "lora_mode" not in mon.valid and (
-                "lost its configuration" in v["kind"] and [i for i in mon.need("base") if i not in mon.valid] == ["lora_mode"]
-                or re.search(r"started with lora_mode not programmed", v["kind"])):
-            v = dict(v, known="sx127x-failed-reset-leaves-fsk-mode")
-            break
     if want_monline:
         line = "chipmon fam=%d tcxo=%d dcdc=%d | %s" % (fam(chip), 1 if mon.tcxo else 0, 1 if mon.dcdc else 0, " | ".join(monops))
         return v, line, " ; ".join(monstates)
